@@ -8,6 +8,7 @@ NOT decided: the round-trip identity itself (a functional statement over all byt
 from dqsa import paths
 from .common import *
 from .sync_common import entry_point
+import re
 from .C03 import root_ptr
 from .C10 import roots_of
 
@@ -147,9 +148,59 @@ def rule_BD4(rep, prog):
             b = root_ptr(fn, i.d["ptr"]["base"])
             bi = fn.insts.get(b[1]) if b[0] == "i" else None
             return bi is not None and bi.op == "load" and bool(prog.fields(bi) & frozenset(["u8", "u16"])) and "ptr" in prog.fields(bi)
+        def min_reserved(op, cx, depth=0):
+            """smallest value the reservation size can have on this path (select / phi resolved with what the path established; an undecided select counts
+            as its smaller arm)"""
+            op = cx.resolve(op)
+            if op[0] == "c":
+                return op[1]
+            i = fn.inst(op) if op[0] == "i" else None
+            if i is None or depth > 6:
+                return None
+            if i.op in ("zext", "sext", "trunc"):
+                return min_reserved(i.ops[0], cx, depth + 1)
+            if i.op == "select":
+                c_ = cx.cond(i.ops[0])
+                if c_ is not None:
+                    return min_reserved(i.ops[1] if c_ else i.ops[2], cx, depth + 1)
+                a, b = min_reserved(i.ops[1], cx, depth + 1), min_reserved(i.ops[2], cx, depth + 1)
+                return None if a is None or b is None else min(a, b)
+            if i.op == "phi":
+                vs = [min_reserved(v, cx, depth + 1) for v, frm in i.ops]
+                return None if any(v is None for v in vs) else min(vs)
+            return None
         for c in res:
             R = arg_const(fn, c, 1)
             if R is None:
+                # a computed reservation: per path, the bytes stored must not exceed the smallest value the size can have on that path
+                n += 1
+                for kind, inst, cx, path in paths.walk(fn, c, lambda i: i in res, bound=100000):
+                    Rp = min_reserved(c.ops[1], cx)
+                    total, started, done = 0, False, False
+                    for bid in path:
+                        for i in fn.blocks[bid].insts:
+                            if i is c:
+                                started = True
+                                continue
+                            if not started:
+                                continue
+                            if kind == "hit" and i is inst and (bid != c.block.id or i.idx > c.idx):
+                                done = True
+                                break
+                            if is_data_store(i):
+                                vt = i.d.get("vty", "i8")
+                                total += int(vt[1:]) // 8 if vt[1:].isdigit() else 8
+                        if done:
+                            break
+                    if total == 0:
+                        continue
+                    if Rp is None:
+                        break          # an arithmetic size (size * 2 + 2 for a whole region): bounded by BD12 / the callee's own growth, not a per-character case split
+                    rep.require(rid, total <= Rp, c.loc, fn.name, "store-past-reservation:%s:%d>%d" % (fn.name, total, Rp),
+                                "%s reserves as little as %d byte(s) with _dispatch_transform_buffer_new on a path (%s) that then stores %d byte(s) through the buffer "
+                                "before the next reservation (the size is computed from a different value than the one that selects how many bytes are written): a "
+                                "heap write past the end of the output buffer when the reservation was the last one that fitted" % (fn.name, Rp, path, total),
+                                sample={"fn": fn.name, "reserved_min": Rp, "stored": total})
                 continue
             n += 1
             walked = paths.walk(fn, c, lambda i: i in res, bound=100000)
@@ -461,7 +512,37 @@ def rule_TB9(rep, prog):
                     "written as an ill-formed sequence that the inverse transform rejects or mis-reads" % (N, hex(bound) if bound is not None else "?", want_t[N]),
                     sample={"bytes": N, "below": hex(bound) if bound is not None else None})
     if seen < 3:
-        rep.unknown(rid, "fewer than 3 rungs of the UTF-8 length ladder found (%d)" % seen)
+        # the reservations are not per-rung constants (e.g. one computed reservation in front of the ladder): decide the ladder on the number of bytes EMITTED
+        # under each established bound instead
+        def is_data_store(i):
+            if i.op != "store" or not i.d.get("ptr"):
+                return False
+            b = root_ptr(fn, i.d["ptr"]["base"])
+            bi = fn.insts.get(b[1]) if b[0] == "i" else None
+            return bi is not None and bi.op == "load" and bool(prog.fields(bi) & frozenset(["u8", "u16"])) and "ptr" in prog.fields(bi)
+        rungs = {}
+        for b in fn.blocks:
+            sts = [i for i in b.insts if is_data_store(i)]
+            if not sts:
+                continue
+            cx = paths.dom_ctx(fn, sts[0])
+            bound = None
+            for cid, tv in cx.truth.items():
+                t = fn.insts[cid]
+                if t.op == "icmp" and t.ops[1][0] == "c" and tv and t.d["pred"] in ("ult", "ule"):
+                    bb = t.ops[1][1] + (1 if t.d["pred"] == "ule" else 0)
+                    bound = bb if bound is None else min(bound, bb)
+            if bound is not None:
+                rungs[len(sts)] = bound
+        found = 0
+        for N, want_b in want_t.items():
+            if N in rungs:
+                found += 1
+                rep.require(rid, rungs[N] == want_b, fn.file, fn.name, "utf8-length-boundary:%d" % N,
+                            "the UTF-16 decoder emits a %d-byte UTF-8 sequence for code points below %#x (expected below %#x)" % (N, rungs[N], want_b),
+                            sample={"bytes": N, "below": hex(rungs[N])})
+        if found < 3:
+            rep.unknown(rid, "fewer than 3 rungs of the UTF-8 length ladder found (%d constant reservations, %d emission blocks)" % (seen, found))
 
 
 def rule_AI10(rep, prog):
@@ -584,6 +665,58 @@ def rule_OD13(rep, prog):
         rep.unknown(rid, "fewer than 3 mapped windows with dereferences found (%d)" % n)
 
 
+def rule_FR14(rep, prog):
+    rid = rep.rule("C20-FR14", "fragmentation independence of the base-N decoders: whatever the per-character loop carries from one input character to the next - "
+                   "apart from the input index and the output cursor - lives in the state shared by all regions (the __block variables x / count / pad), never in "
+                   "a local that starts afresh with each region: a region boundary inside a quantum (or between two '=') must be invisible", floor=2)
+    n = 0
+    for fn in prog.all_functions():
+        if not re.match(r"_+dispatch_transform_from_base(32|64).*block_invoke", fn.name):
+            continue
+        n += 1
+        rep.saw(fn)
+        size_arg = ("a", 4)
+        def derives_from_size(op, depth=0):
+            if tuple(op[:2]) == size_arg:
+                return True
+            i = fn.inst(op) if op[0] == "i" else None
+            if i is None or depth > 4:
+                return False
+            return i.op in ("add", "sub", "zext", "trunc", "udiv", "mul") and any(derives_from_size(o, depth + 1) for o in i.ops if isinstance(o, (list, tuple)))
+        for b in fn.blocks:
+            for ph in b.insts:
+                if ph.op != "phi":
+                    break
+                if not any(fn.dominates(ph, fn.blocks[frm].term) for v, frm in ph.ops):
+                    continue            # not a loop-head phi (no incoming back edge)
+                if str(ph.d.get("ty", "")).endswith("*"):
+                    rep.ok(rid, "cursor:%s:%d" % (fn.name, ph.id), {"fn": fn.name, "phi": ph.loc, "kind": "pointer cursor"})
+                    continue
+                # integer: every use is addressing, a comparison with the region size, or its own update
+                bad, seen, work = [], set(), [ph]
+                while work:
+                    v = work.pop()
+                    for u in fn.users(v):
+                        if u.id in seen:
+                            continue
+                        seen.add(u.id)
+                        if u.op == "getelementptr":
+                            continue
+                        if u.op == "icmp" and any(derives_from_size(o) for o in u.ops):
+                            continue
+                        if u.op in ("add", "sub", "zext", "sext", "trunc", "phi"):
+                            work.append(u)
+                            continue
+                        bad.append(u)
+                rep.require(rid, not bad, ph.loc, fn.name, "per-region-decoder-state:%d" % ph.id,
+                            "%s carries a value from character to character in a local that is re-initialised for every region (loop-carried %%%d, used at %s as more "
+                            "than an index / output cursor): decoder state such as the count of '=' seen or the position inside the quantum must survive a region "
+                            "boundary - text split between two padding characters or inside a quantum otherwise decodes differently from the same text in one piece"
+                            % (fn.name, ph.id, bad[0].loc if bad else None), sample={"fn": fn.name, "phi": ph.loc})
+    if n < 2:
+        rep.unknown(rid, "expected the Base32 and Base64 decoder blocks, found %d" % n)
+
+
 def run(rep, tier="quick", srcdir=None, only=None):
     prog, units = load(UNITS, tier, srcdir)
     rep.units = units
@@ -620,6 +753,8 @@ def run(rep, tier="quick", srcdir=None, only=None):
         rule_BD12(rep, prog)
     if want("C20-OD13"):
         rule_OD13(rep, prog)
+    if want("C20-FR14"):
+        rule_FR14(rep, prog)
 
 
 MANIFEST = {
